@@ -4484,20 +4484,25 @@ class ParseCtx:
                 i += 1
                 if contents[i] == "x" or contents[i] == "u":
                     if contents[i] == "u":
-                        raise NotImplementedError("don't support uescapes yet")
+                        raise IllegalParseTree("Unicode escapes are not supported in string " + escaped_string)
                     code = contents[i+1:i+3]
+                    if len(code) != 2 or any(x not in string.hexdigits for x in code):
+                        raise IllegalParseTree("Invalid hex escape in string " + escaped_string)
                     result += chr(int(code, base=16))
                     i += 3
                 else:
-                    result += {
-                        'n': '\n',
-                        'r': '\r',
-                        't': '\t',
-                        'b': '\b',
-                        '0': '\x00',
-                        '"': '"',
-                        '\\': '\\'
-                    }[contents[i]]
+                    try:
+                        result += {
+                            'n': '\n',
+                            'r': '\r',
+                            't': '\t',
+                            'b': '\b',
+                            '0': '\x00',
+                            '"': '"',
+                            '\\': '\\'
+                        }[contents[i]]
+                    except KeyError:
+                        raise IllegalParseTree("Unknown escape sequence \\" + contents[i] + " in string " + escaped_string)
                     i += 1
         return result
 
